@@ -12,6 +12,7 @@ for _p in ("C01", "C02", "C03", "C04", "C05", "C15"):
 ENGINES["C06"] = "engine_market"
 ENGINES["C12"] = "engine_clock"
 ENGINES["C13"] = "engine_clock"
+ENGINES["C16"] = "engine_signals"
 ENGINES["C10"] = "engine_sizer"
 ENGINES["C11"] = "engine_sizer"
 
